@@ -117,7 +117,10 @@ META.update({
     "C16": E("per-thread differential value oracle + deadlock detection (shuttle: all threads blocked; OS: protocol-level stuck state)",
              CVOL + "2-4 threads with database clones request overlapping sets of functions of acyclic programs after a prior revision, so "
              "verification, execution, blocking and retry paths run concurrently; every result must equal the reference, no schedule may "
-             "deadlock or exceed the step bound, an unexpected panic (e.g. a spurious cycle error) is a violation.",
+             "deadlock or exceed the step bound, an unexpected panic (e.g. a spurious cycle error) is a violation. A third of the cases churn tracked "
+             "structs (makers switched off and on at once, so one thread deletes structs and their memos while another creates structs of the "
+             "same type); after the parallel phase every interned handle held by a memo that a request validated is read back and must still "
+             "denote the value it was interned for; the event callback yields / sleeps on discard and interning events.",
              CONC_NOTE, "E-sched + E-os"),
     "C17": E("exactly-once counting monitor over WillExecute events per (key, revision) across handles",
              CVOL + "Same executions as C16 without lru/cycles/cancellation/panics: two WillExecute events for one key (slot and generation) in "
@@ -126,7 +129,9 @@ META.update({
     "C18": E("per-thread differential value oracle (least fixpoint / SCC) + deadlock and livelock (step bound) detection",
              CVOL + "2-3 threads enter generated fixpoint / cycle_result programs at different members (nested and conditional cycles, lock "
              "ownership transfers between threads); every result must equal the single-threaded oracle of C12/C13, no schedule may "
-             "deadlock or exceed the step bound.",
+             "deadlock or exceed the step bound. A quarter of the fixpoint cases use a directed nested-conditional template with value-controlled "
+             "callee sets (an inner function drops out of the outer cycle in a later iteration while another thread waits for it); known "
+             "findings F5, F18-F21 are matched by root-cause signature.",
              CONC_NOTE, "E-sched + E-os"),
     "C19": E("offline trace checker: recorded claim/wait/transfer protocol operations vs an abstract reference model",
              CVOL + "Every BlockOn must be followed by exactly one Unblock and one Resume with the same outcome; no wait is entered while the "
@@ -151,7 +156,8 @@ META.update({
     "C24": E("identity-distinctness and read-back monitor over concurrent creations",
              CVOL + "2-4 threads create inputs directly, intern values and run makers on their own handles (handles are dropped at the end of the "
              "phase): identities of inputs are pairwise distinct, every identity reads back the fields it was created with, interning stays "
-             "canonical, tracked-struct identities obey the identity monitor.",
+             "canonical, tracked-struct identities obey the identity monitor. Threads also turn their handle into a StorageHandle and back "
+             "between creations (the handle's partly filled pages go back to the shared table).",
              CONC_NOTE, "E-sched + E-os"),
 })
 META["C14"]["engine"] = "E-single + E-os"
@@ -163,7 +169,8 @@ META["C22"] = E("fault enumeration: a panic injected at every user-code step, re
     "computation may be returned, and after the fault is disarmed the rest of the history, a repeat of the request and a full sweep in the "
     "next revision must agree with the reference; a second run arms the fault while two OS threads compute overlapping functions so that "
     "one waits on the other (propagated panic or correct value, never a hang). Known findings F2 and F13 are reported as KNOWN-FINDING by "
-    "(injection site, failure message) signature; F1 was repaired.",
+    "(injection site, failure message) signature; F1 was repaired. Fault sites include PartialEq of function results (also of makers' struct lists), "
+    "of tracked fields, Hash/Eq of interned keys, cycle functions and the event callback by event kind.",
     SINGLE_NOTE, "E-fault (E-single replay per injection point) + E-os")
 
 META["C25"] = E("exhaustive + sampled round-trip oracle over the real origin encoder/decoder, plus Miri on the unsafe allocation code",
